@@ -137,25 +137,29 @@ Proof.
     rewrite (mapM_payload (fun x : pystr * ref => snd x) (fun x : pystr * ref => parse_int (fst x)) vals).
     match goal with |- context [mapM ?f vals] => destruct (mapM f vals) as [zs|] end; cbn [option_map obind]; [|reflexivity].
     unfold sort_by_int. rewrite isort_map_snd. cbn [cont_extend app obind]. unfold map_snd. rewrite !map_map. reflexivity.
-  - assert (I1 : cont_isinstance (cont_fromkeys ord (RVal py_none) ks) [TyList] = false) by (destruct ord; reflexivity).
-    assert (I2 : cont_isinstance (cont_fromkeys ord (RVal py_none) ks) [TyDict] = true) by (destruct ord; reflexivity).
-    rewrite I1, I2. unfold cont_fromkeys. cbn [cont_keys obind]. rewrite map_map. cbn [fst]. rewrite map_id.
-    cbv zeta.
-    match goal with |- context [sdict_mem _ ?D0] => set (D := D0) end.
-    match goal with |- context [py_for _ _ ?b] => set (body := b) end.
-    assert (HD : forall s0, sdict_get s0 D = assoc_str s0 (rev (map (fun tv : pystr * ref => (decode (fst tv), snd tv)) vals))).
-    { intro s0. unfold D, sdict_of_list. rewrite sdict_update_get. unfold sdict_items.
-      replace (flat_map (fun it : pystr * ref => [(decode (fst it), snd it)]) vals)
-        with (map (fun tv : pystr * ref => (decode (fst tv), snd tv)) vals)
-        by (clear; induction vals as [|x l IH]; [reflexivity | cbn [map flat_map app]; rewrite IH; reflexivity]).
-      match goal with |- context [assoc_str s0 ?l] => destruct (assoc_str s0 l) end; reflexivity. }
-    assert (Hb : forall c k, body c k =
+  - (* the two type tests, however they are written (isinstance / type(..) ==), evaluate on a concrete container kind *)
+    unfold cont_fromkeys.
+    destruct ord; cbn [cont_isinstance cont_type existsb pytype_subclass pytype_eqb orb];
+    cbn [cont_keys obind]; rewrite map_map; cbn [fst]; rewrite map_id.
+    all: cbv zeta.
+    all: match goal with |- context [sdict_mem _ ?D0] => set (D := D0) end.
+    all: match goal with |- context [py_for _ _ ?b] => set (body := b) end.
+    all: assert (HD : forall s0, sdict_get s0 D = assoc_str s0 (rev (map (fun tv : pystr * ref => (decode (fst tv), snd tv)) vals)))
+      by (intro s0; unfold D, sdict_of_list; rewrite sdict_update_get; unfold sdict_items;
+          replace (flat_map (fun it : pystr * ref => [(decode (fst it), snd it)]) vals)
+            with (map (fun tv : pystr * ref => (decode (fst tv), snd tv)) vals)
+            by (clear; induction vals as [|x l IH]; [reflexivity | cbn [map flat_map app]; rewrite IH; reflexivity]);
+          match goal with |- context [assoc_str ?s1 ?l] => destruct (assoc_str s1 l) end; reflexivity).
+    all: assert (Hb : forall c k, body c k =
        if sdict_mem (key_str k) D
        then t <- sdict_get (key_str k) D ;; c' <- cont_setitem c k t ;; Some c'
        else c' <- cont_delitem c k ;; Some c') by (intros c k; reflexivity).
-    pose proof (pop_dict_loop D _ ord body HD Hb (fromkeys ks) [] (fun x k (F : In x []) _ => match F with end)
-                  (fromkeys_distinct ks)) as E.
-    cbn [app] in E. rewrite E. reflexivity.
+    + pose proof (pop_dict_loop D _ true body HD Hb (fromkeys ks) [] (fun x k (F : In x []) _ => match F with end)
+                    (fromkeys_distinct ks)) as E.
+      cbn [app] in E. rewrite E. reflexivity.
+    + pose proof (pop_dict_loop D _ false body HD Hb (fromkeys ks) [] (fun x k (F : In x []) _ => match F with end)
+                    (fromkeys_distinct ks)) as E.
+      cbn [app] in E. rewrite E. reflexivity.
 Qed.
 
 (* ================================================================== inflate *)
